@@ -170,6 +170,10 @@ def systematic():
     cs.append((["xxx"], {"x": [2, 3, 5, 7]}))                      # fixed finding C20-pows-offsets
     cs.append((["xa", "a"], {"x": [1, 2]}))                      # absent namespace
     cs.append((["xa", "x"], {"x": [2, 3], "a": None}))
+    # wide dense namespaces next to a string / sparse one (the output is a mapping whose positions are named by their index): no feature is lost at any width
+    for width in (999, 1000, 1001, 1500, 4097):
+        cs.append((["xa"], {"x": list(range(2, width + 2)), "a": "u"}))
+        cs.append((["x", "a"], {"x": list(range(2, width + 2)), "a": {"p": 3}}))
     return cs
 
 def run(ctx):
